@@ -499,3 +499,111 @@ Definition gen (pi_cfg pi_bag : oracle) (cfg : hmap scfg) (files : list (list it
       | Ok l => GOk l
       end
   end.
+
+(* ------------------------------------------------------------------------------------------- *)
+(** * §8 graphql-scalars plugin (plugin/src/graphql_scalars_plugin/mod.rs) *)
+
+(** lexicographic order of strings = [Ord for String] (byte order of UTF-8 = order of scalar values) *)
+Fixpoint str_leb (a b : str) : bool :=
+  match a, b with
+  | [], _ => true
+  | _ :: _, [] => false
+  | x :: a', y :: b' => (x <? y)%N || ((x =? y)%N && str_leb a' b')
+  end.
+
+(** stable insertion sort by a boolean order ([sort_by_key] on the map keys) *)
+Fixpoint ins_leb {A} (leb : A -> A -> bool) (x : A) (l : list A) : list A :=
+  match l with
+  | [] => [x]
+  | y :: r => if leb x y then x :: y :: r else y :: ins_leb leb x r
+  end.
+Definition sort_leb {A} (leb : A -> A -> bool) (l : list A) : list A := fold_right (ins_leb leb) [] l.
+
+(** the `codegenScalarType` extension value: a string, a mapping (string keys; [Some s] = string value), other *)
+Inductive ycodegen := YStr (v : str) | YMap (m : list (str * option str)) | YOther.
+(** one entry of `type_extensions`: `nitrogql:kind` as a string (if it is one) and `codegenScalarType` (if present) *)
+Record xext := mk_xext { xe_kind : option str; xe_codegen : option ycodegen }.
+
+Definition ymap_get (m : list (str * option str)) (k : str) : option (option str) := hm_get m k.
+(** `.get(a).or(.get(b)).and_then(|v| v.as_str())` *)
+Definition yget2 (m : list (str * option str)) (a b : str) : option str :=
+  match (match ymap_get m a with Some v => Some v | None => ymap_get m b end) with
+  | Some (Some x) => Some x
+  | _ => None
+  end.
+Definition yget (m : list (str * option str)) (a : str) : option str :=
+  match ymap_get m a with Some (Some x) => Some x | _ => None end.
+
+(** what one loop iteration of [load_schema_extensions] inserts for a type, if anything *)
+Definition scalar_extension_of (e : xext) : option scfg :=
+  match xe_kind e with
+  | Some k =>
+      if str_eqb k (s "scalar") then
+        match xe_codegen e with
+        | None => None
+        | Some (YStr v) => Some (Single v)
+        | Some YOther => None
+        | Some (YMap m) =>
+            match yget2 m (s "send") (s "input"), yget2 m (s "receive") (s "output") with
+            | Some send, Some receive => Some (SendReceive send receive)
+            | _, _ =>
+                match yget m (s "resolverInput"), yget m (s "resolverOutput"),
+                      yget m (s "operationInput"), yget m (s "operationOutput") with
+                | Some ri, Some ro, Some oi, Some oo => Some (Separate ro ri oo oi)
+                | _, _, _, _ => None
+                end
+            end
+        end
+      else None
+  | None => None
+  end.
+
+(** [load_schema_extensions]: `for (type_name, extensions) in extensions.type_extensions` — raw iteration;
+    inserts into the plugin's own map *)
+Definition load_schema_extensions (pi : oracle) (base : hmap scfg) (exts : hmap xext) : hmap scfg :=
+  hm_extend base (flat_map (fun kv => match scalar_extension_of (snd kv) with
+                                      | Some c => [(fst kv, c)]
+                                      | None => []
+                                      end) (pi xext exts)).
+
+(** [separate_ref] as (resolver_input, resolver_output, operation_input, operation_output) *)
+Definition separate4 (c : scfg) : str * str * str * str :=
+  match c with
+  | Single t => (t, t, t, t)
+  | SendReceive send receive => (receive, send, send, receive)
+  | Separate ro ri oo oi => (ri, ro, oi, oo)
+  end.
+
+Definition nl1 : str := [10%N].
+Definition dq : str := [34%N].
+Definition format_extension (kv : str * scfg) : str :=
+  let '(ri, ro, oi, oo) := separate4 (snd kv) in
+  s "extend scalar " ++ fst kv ++ s " @nitrogql_ts_type(" ++ nl1
+  ++ s "        resolverInput: " ++ dq ++ ri ++ dq ++ nl1
+  ++ s "        resolverOutput: " ++ dq ++ ro ++ dq ++ nl1
+  ++ s "        operationInput: " ++ dq ++ oi ++ dq ++ nl1
+  ++ s "        operationOutput: " ++ dq ++ oo ++ dq ++ nl1
+  ++ s "    )" ++ nl1.
+
+(** [schema_addition]: `self.scalar_extensions.iter().collect()` — raw iteration — then
+    `sort_by_key(|(type_name, _)| *type_name)` "to make the output deterministic" *)
+Definition schema_addition (pi : oracle) (exts : hmap scfg) : option str :=
+  let sorted := sort_leb (fun a b : str * scfg => str_leb (fst a) (fst b)) (pi scfg exts) in
+  match flat_map format_extension sorted with
+  | [] => None
+  | t => Some t
+  end.
+
+Definition plugin_schema_addition (pi_load pi_add : oracle) (exts : hmap xext) : option str :=
+  schema_addition pi_add (load_schema_extensions pi_load [] exts).
+
+(* ------------------------------------------------------------------------------------------- *)
+(** * §9 graphql-loader: get_required_files (loader.rs) over Task::iter_loaded_files (tasks.rs) *)
+
+(** [loaded] : file name -> the import paths of that file, already resolved against it;
+    `for (from_file, (_, extensions)) in task.iter_loaded_files()` — raw iteration of the HashMap *)
+Definition required_step (loaded : hmap (list str)) (acc : list str) (path : str) : list str :=
+  if hm_mem loaded path || existsb (str_eqb path) acc then acc else acc ++ [path].
+
+Definition get_required_files (pi : oracle) (loaded : hmap (list str)) : list str :=
+  fold_left (fun acc kv => fold_left (required_step loaded) (snd kv) acc) (pi (list str) loaded) [].
